@@ -126,6 +126,13 @@ theorem nodeCmp_pre (pl : List Event) (c : Ctx) (l r : Bytes) (sl sr : Bool) (o 
           | none => rfl
           | some t => rfl
 
+theorem textBound_pre (pl : List Event) (s : Bytes) (c1 : Ctx) :
+    textBound s (c1.pre pl) = ((textBound s c1).1, (textBound s c1).2.pre pl) := by
+  unfold textBound
+  split
+  · rfl
+  · cases parseInt64Lit s <;> rfl
+
 theorem cloopRange_pre (pl : List Event) (c : Ctx) (st : Bool) (b : Bytes) :
     cloopRange (c.pre pl) st b = ((cloopRange c st b).1, (cloopRange c st b).2.pre pl) := by
   unfold cloopRange
@@ -139,7 +146,7 @@ theorem cloopRange_pre (pl : List Event) (c : Ctx) (st : Bool) (b : Bytes) :
     | some e => rfl
     | none =>
       simp only
-      cases (c.get b).1 <;> rfl
+      cases (c.get b).1 <;> first | rfl | exact textBound_pre pl _ _
 
 theorem evalPrint_pre (pl : List Event) (c : Ctx) (path : Bytes) (mods : List Mod) :
     evalPrint (c.pre pl) path mods = ((evalPrint c path mods).1.pre pl, (evalPrint c path mods).2) := by
